@@ -55,7 +55,7 @@ impl<R: Read + Seek> ReadBox<&mut R> for UdtaBox {
             // Get box header.
             let header = BoxHeader::read(reader)?;
             let BoxHeader { name, size: s } = header;
-            if s > size {
+            if s > size || s < HEADER_SIZE {
                 return Err(Error::InvalidData(
                     "udta box contains a box with a larger size than it",
                 ));
